@@ -46,6 +46,8 @@ pub struct StreamSpec {
     pub use_gv: bool,
     pub options: Vec<String>,
     pub windows: Vec<Vec<f64>>,
+    /// `NUM_WINDOWS` as written in the header when it is to differ from the number of window rows (`STREAM_WIN` entries)
+    pub declared_nwin: Option<usize>,
     pub model: ModelSpec,
     pub gv: Option<ModelSpec>,
 }
@@ -431,7 +433,7 @@ impl VoiceSpec {
                     options.swap(i, j);
                 }
             }
-            streams.push(StreamSpec { name: name.to_string(), veclen, is_msd, use_gv, options, windows, model, gv });
+            streams.push(StreamSpec { name: name.to_string(), veclen, is_msd, use_gv, options, windows, declared_nwin: None, model, gv });
         }
         VoiceSpec { sr, fp, nstate, streams, duration, gv_off: vec!["*-sil+*".into(), "*-pau+*".into()], stage, alpha, log_gain }
     }
@@ -505,7 +507,7 @@ impl VoiceSpec {
             let _ = writeln!(h, "IS_MSD[{}]:{}", s.name, s.is_msd as usize);
         }
         for s in &self.streams {
-            let _ = writeln!(h, "NUM_WINDOWS[{}]:{}", s.name, s.windows.len());
+            let _ = writeln!(h, "NUM_WINDOWS[{}]:{}", s.name, s.declared_nwin.unwrap_or(s.windows.len()));
         }
         for s in &self.streams {
             let _ = writeln!(h, "USE_GV[{}]:{}", s.name, s.use_gv as usize);
